@@ -41,6 +41,7 @@ func init() {
 			"one request in 25 is preceded by the application assigning a new function to api.ServeError (contexts and handlers exist by then): from then on only that function is the API's error responder; " +
 			"one request in 12 is rendered outside a matched operation: Context.Respond with route nil or with a hand-made MatchedRoute without Operation (1-3 produces entries of the description, value / nil / error data, GET POST DELETE HEAD) and Context.NotFound; " +
 			"one API in 8 declares a media type for which no producer is registered (the library's fall-back to the default producer); one default type in 10 is written with parameters; [{key},{basic}] security alternatives; " +
+			"round 4: one description in seven declares (and registers producers for) media types spelled with upper-case letters - vendor types, Text/Plain - with and without parameters, next to lower-case types, with (4 in 5) and without an API default producer; two Accept headers in three of such an operation name the offers verbatim in the plain form; " +
 			"a request for a declared operation that reaches the Builder middleware or the generated handler without a MatchedRoute is a violation. Oracle from the statement; the offers are computed from the DECLARED produces (operation, else spec) plus the API default, the observed MatchedRoute.Produces must be that set and only lends its order. " +
 			"non-trivial = request that reached the stage it was meant for; distinct by (entry shape of the negotiated type, Accept flavour, outcome kind, method, declared code, stage)",
 		Assumptions: []string{
@@ -50,7 +51,7 @@ func init() {
 			"a Responder result (custom or the library's own) on HEAD or for a 204 operation writes what it wants: body not judged there",
 			"404/405 answers: 'the error responder is invoked once with an error of that code and a Content-Type is set, which is a produces entry of the API, its default type or JSON' is judged (the offers are a map-ordered list that cannot be observed)",
 			"basic auth: the authenticate callback reports bad credentials with an error; realm unset or \"\" means the library default security.DefaultRealmName; the challenge is parsed as RFC 7235 (scheme Basic, realm as quoted-string or token)",
-			"upper-case entries in produces are not generated",
+			"produces entries spelled with upper-case letters (one description in seven: vendor types such as application/vnd.Acme.v2+json, Text/Plain, text/CSV) are declared and registered under that spelling; media types are case-insensitive (RFC 7231 3.1.1.1): 'the producer registered for that media type' is the one registered under the type in whatever letter case (tags are the registration keys in lower case), and the announced Content-Type is the declared entry; their negotiation is judged by C07's mixed-case reading (plain 'range[;q=value]' headers, and only when every (range, offer) pair matches verbatim iff it matches with case ignored), else the announced type is taken as negotiated; the API default stays in lower case and its media type is not declared in another letter case; one media type appears once per produces list whatever the letter case; a direct entry whose negotiation is not judged and for which the library announces no type at all is not judged (nothing acceptable cannot be refuted)",
 			"an operation that declares several 2xx codes: its declared success status is the lowest of them (the rule spec.Operation.SuccessResponse documents), for every response alike",
 			"a request that is both unacceptable (406) and lacks a required parameter may be refused with either error; a denied authorization is judged like a failed authentication (before the 406 gate)",
 			"the API's error responder is the function that api.ServeError holds when the error is served (the field is exported and documented as the hook): after the application has reassigned it, an invocation of an earlier function is a violation",
@@ -456,7 +457,9 @@ func build(d *APIDesc) (*built, error) {
 	api := untyped.NewAPI(doc).WithoutJSONDefaults()
 	api.DefaultProduces = d.DefaultProduces
 	for _, k := range d.regKeys() {
-		api.RegisterProducer(k, &tagProducer{tag: k, b: b}) // tagged with the very key: the bare key and a key with parameters are told apart
+		// registered under the declared spelling (capitals included), tagged with the key in lower case (media types are
+		// case-insensitive): the bare key and a key with parameters are told apart
+		api.RegisterProducer(k, &tagProducer{tag: strings.ToLower(k), b: b})
 	}
 	if d.anyBody() {
 		api.RegisterConsumer("application/json", runtime.JSONConsumer())
@@ -603,6 +606,10 @@ func (s *served) contextFor(flow string) *middleware.Context {
 }
 
 const flowRoutable = "generated-routable"
+
+// upperCaseFeature is appended to the signature of a violation on an operation (or a direct entry) whose declared
+// produces list holds a media type spelled with upper-case letters.
+const upperCaseFeature = "+declared-type-with-upper-case-letters"
 
 func (b *built) handler() *served {
 	s := &served{b: b}
@@ -899,6 +906,9 @@ func runCaseOn(m *mon.M, c *Case, b *built, h *served) (violated bool) {
 		if accept.HasOWSBeforeSemicolon(declared...) && !strings.Contains(sig, "ows-before-semicolon") {
 			sig += "+declared-type-with-ows-before-semicolon"
 		}
+		if hasUpperCase(declared...) {
+			sig += upperCaseFeature
+		}
 		cs := minimal()
 		if !inTrial && shrinks[sig] < 3 {
 			shrinks[sig]++
@@ -994,8 +1004,8 @@ func runCaseOn(m *mon.M, c *Case, b *built, h *served) (violated bool) {
 	offers := accept.StatementOffers(obs.produces, declared, d.DefaultProduces)
 
 	// ---- reference negotiation ----
-	p := accept.ParseStrict(lines, true)
-	negOK := p.Judged && accept.CleanOffers(offers, true)
+	p, mixedCase, why := parseJudged(lines, offers)
+	negOK := why == ""
 	if negOK && p.Present {
 		var specs []header.AcceptSpec
 		mon.Catch(func() { specs = header.ParseAccept(http.Header{"Accept": append([]string{}, lines...)}, "Accept") })
@@ -1004,12 +1014,15 @@ func runCaseOn(m *mon.M, c *Case, b *built, h *served) (violated bool) {
 		for i, s := range specs {
 			vals[i], qs[i] = s.Value, s.Q
 		}
-		if md, _ := accept.CheckParse(vals, qs, p.Ranges); md != "" {
+		if !parseAgrees(vals, qs, p.Ranges, mixedCase) {
 			negOK = false
 			m.Class("negotiation-not-judged:ParseAccept-fails-C07-oracle")
 		}
 	} else if !negOK {
-		m.Class("negotiation-not-judged:" + p.Why)
+		m.Class("negotiation-not-judged:" + why)
+	}
+	if hasUpperCase(declared...) {
+		m.Class(fmt.Sprintf("upper-case-declared-type:negotiation-judged=%v", negOK))
 	}
 	var gate, neg accept.Pick
 	if negOK {
@@ -1072,7 +1085,12 @@ func runCaseOn(m *mon.M, c *Case, b *built, h *served) (violated bool) {
 		return violated
 	}
 	succ, hasSucc := op.success()
-	m.NT(fmt.Sprintf("%s|%s|%s|%s|%s|%d|%v|%s|%v|%s", stage, shape, rq.Flavour, rq.Outcome.Kind, op.Method, succ, d.DefaultProduces != "", rq.Flow, multi, rq.Deny))
+	upper := ""
+	if w, ok := wantCT(); (ok && hasUpperCase(w)) || (!ok && hasUpperCase(ct)) {
+		upper = "|upper-case-type" // the negotiated (else the announced) type is spelled with capitals
+		m.Class("upper-case-negotiated-type:" + stage + ":" + oc)
+	}
+	m.NT(fmt.Sprintf("%s|%s|%s|%s|%s|%d|%v|%s|%v|%s%s", stage, shape, rq.Flavour, rq.Outcome.Kind, op.Method, succ, d.DefaultProduces != "", rq.Flow, multi, rq.Deny, upper))
 	ctx := fmt.Sprintf("%s %s Accept=%q produces=%q default=%q", method, path, lines, obs.produces, d.DefaultProduces)
 
 	isValidation := func(code int) bool { return code == http.StatusUnprocessableEntity || code >= 600 }
@@ -1385,8 +1403,8 @@ func runCaseOn(m *mon.M, c *Case, b *built, h *served) (violated bool) {
 // when it cannot be told (a header outside the strict grammar's judged zone, or one that header.ParseAccept
 // already mis-parses by C07's oracle).
 func negotiate(m *mon.M, lines []string, offers []string) (neg accept.Pick, ok bool) {
-	p := accept.ParseStrict(lines, true)
-	ok = p.Judged && accept.CleanOffers(offers, true)
+	p, mixedCase, why := parseJudged(lines, offers)
+	ok = why == ""
 	if ok && p.Present {
 		var specs []header.AcceptSpec
 		mon.Catch(func() { specs = header.ParseAccept(http.Header{"Accept": append([]string{}, lines...)}, "Accept") })
@@ -1395,12 +1413,12 @@ func negotiate(m *mon.M, lines []string, offers []string) (neg accept.Pick, ok b
 		for i, s := range specs {
 			vals[i], qs[i] = s.Value, s.Q
 		}
-		if md, _ := accept.CheckParse(vals, qs, p.Ranges); md != "" {
+		if !parseAgrees(vals, qs, p.Ranges, mixedCase) {
 			ok = false
 			m.Class("negotiation-not-judged:ParseAccept-fails-C07-oracle")
 		}
 	} else if !ok {
-		m.Class("negotiation-not-judged:" + p.Why)
+		m.Class("negotiation-not-judged:" + why)
 	}
 	if ok {
 		neg = accept.Select(p.Present, p.Ranges, offers, true)
@@ -1494,6 +1512,9 @@ func runDirect(m *mon.M, c *Case, b *built, s *served) (violated bool) {
 		if accept.HasOWSBeforeSemicolon(declared...) && !strings.Contains(sig, "ows-before-semicolon") {
 			sig += "+declared-type-with-ows-before-semicolon"
 		}
+		if hasUpperCase(declared...) {
+			sig += upperCaseFeature
+		}
 		// the smallest API that registers what the entry needs
 		op := OpDesc{Method: "GET", Produces: declared, Codes: []int{200}}
 		if len(declared) == 0 {
@@ -1539,7 +1560,12 @@ func runDirect(m *mon.M, c *Case, b *built, s *served) (violated bool) {
 		violate(fmt.Sprintf("panic-%s/%s/%s/%s", cls, rq.Entry, oc, shape), fmt.Sprintf("%s: panic: %v\n%s", desc, pv, st))
 		return violated
 	}
-	m.NT(fmt.Sprintf("direct|%s|%s|%s|%s|%s|%s", rq.Entry, shape, rq.Flavour, kind, method, rq.Flow))
+	upperD := ""
+	if (negOK && !neg.None && hasUpperCase(neg.Offer)) || (!negOK && hasUpperCase(ct)) {
+		upperD = "|upper-case-type"
+		m.Class("upper-case-negotiated-type:direct:" + oc)
+	}
+	m.NT(fmt.Sprintf("direct|%s|%s|%s|%s|%s|%s%s", rq.Entry, shape, rq.Flavour, kind, method, rq.Flow, upperD))
 	m.Class("outcome:direct:" + kind)
 
 	if isErr {
@@ -1567,6 +1593,13 @@ func runDirect(m *mon.M, c *Case, b *built, s *served) (violated bool) {
 	}
 	if negOK && neg.None {
 		m.Class("direct:nothing-acceptable(not judged)")
+		return violated
+	}
+	if announcedD := map[bool]string{true: obs.respCT, false: ct}[kind == "responder" && obs.respCalls == 1]; !negOK && announcedD == "" && hasUpperCase(offers...) {
+		// offers with capitals under a header whose negotiation is not judged (a range and an offer that differ in letter
+		// case only, or a header outside the plain form), and the library announces nothing: "nothing is acceptable" cannot
+		// be refuted, and a value or Responder when nothing is acceptable is not judged here (no 406 gate ran)
+		m.Class("direct:upper-case-offers:negotiation-not-judged-and-nothing-announced(not judged)")
 		return violated
 	}
 	m.Class(fmt.Sprintf("direct:status:%d", status))
@@ -1908,8 +1941,19 @@ var methods = []string{"GET", "GET", "POST", "PUT", "DELETE", "PATCH", "HEAD", "
 var paramSuffix = []string{"; charset=utf-8", ";charset=utf-8", "; version=1"}
 var realms = []string{"API", "My Realm", "r-1_x", `quo"te`, `back\slash`, "a,b=c", "realm é", ""}
 
-func genAPI(r *rand.Rand) *APIDesc {
+// genAPI draws one description. ru is a PRNG of its own for the upper-case dimension: the draws of r for a
+// description that stays in lower case are what they were without it.
+func genAPI(r, ru *rand.Rand) *APIDesc {
 	d := &APIDesc{}
+	// one description in seven declares media types spelled with upper-case letters (vendor types, Text/Plain): in
+	// produces lists of operations and of the description, with and without parameters, next to lower-case types; they
+	// are registered under the declared spelling; the API default (present in four descriptions out of five) stays in
+	// lower case
+	vocabulary := accept.Types
+	upperAPI := ru.Intn(7) == 0
+	pickUpper := ru.Perm(len(upperTypes))[:2+ru.Intn(4)]
+	pickLower := ru.Perm(len(accept.Types))[:3]
+
 	switch k := r.Intn(20); {
 	case k < 10:
 		d.DefaultProduces = "application/json"
@@ -1922,12 +1966,30 @@ func genAPI(r *rand.Rand) *APIDesc {
 		// an API default written with parameters
 		d.DefaultProduces += paramSuffix[r.Intn(len(paramSuffix))]
 	}
+	if upperAPI {
+		vocabulary = nil
+		for _, i := range pickUpper {
+			// (never the API default's own media type in another letter case: "default producer included or not" is about
+			// the default's entry, a second spelling of it in the list is outside the quantifier)
+			if !strings.EqualFold(upperTypes[i], accept.NormOffer(d.DefaultProduces)) {
+				vocabulary = append(vocabulary, upperTypes[i])
+			}
+		}
+		for _, i := range pickLower {
+			vocabulary = append(vocabulary, accept.Types[i])
+		}
+	}
 	list := func() []string {
 		n := 1 + r.Intn(4)
-		perm := r.Perm(len(accept.Types))
+		perm := r.Perm(len(vocabulary))
 		var out []string
+		folded := map[string]bool{}
 		for i := 0; i < n; i++ {
-			t := accept.Types[perm[i]]
+			t := vocabulary[perm[i]]
+			if folded[strings.ToLower(t)] {
+				continue // one media type once per list, whatever the letter case
+			}
+			folded[strings.ToLower(t)] = true
 			if r.Intn(4) == 0 {
 				t += paramSuffix[r.Intn(len(paramSuffix))]
 			} else if accept.JudgeOWSBeforeSemicolon && r.Intn(12) == 0 {
@@ -1939,7 +2001,7 @@ func genAPI(r *rand.Rand) *APIDesc {
 		if d.DefaultProduces != "" && r.Intn(3) == 0 {
 			present := false
 			for _, t := range out {
-				if accept.NormOffer(t) == accept.NormOffer(d.DefaultProduces) {
+				if strings.EqualFold(accept.NormOffer(t), accept.NormOffer(d.DefaultProduces)) {
 					present = true
 				}
 			}
@@ -2055,7 +2117,7 @@ var responderWithoutRoute = true
 
 var directOutcomes = []string{"value", "value", "value", "value", "nil", "api-error", "plain-error", "composite-error", "responder", "lib-error"}
 
-func genReq(r *rand.Rand, d *APIDesc, i int) ReqDesc {
+func genReq(r, ru *rand.Rand, d *APIDesc, i int) ReqDesc {
 	rq := ReqDesc{Op: r.Intn(len(d.Ops))}
 	op := d.Ops[rq.Op]
 	direct := r.Intn(12) == 0
@@ -2073,8 +2135,8 @@ func genReq(r *rand.Rand, d *APIDesc, i int) ReqDesc {
 			seen := map[string]bool{}
 			n := 1 + r.Intn(3)
 			for _, pi := range r.Perm(len(pool)) {
-				if t := pool[pi]; !seen[accept.NormOffer(t)] && len(rq.Produces) < n {
-					seen[accept.NormOffer(t)] = true
+				if t := pool[pi]; !seen[strings.ToLower(accept.NormOffer(t))] && len(rq.Produces) < n {
+					seen[strings.ToLower(accept.NormOffer(t))] = true
 					rq.Produces = append(rq.Produces, t)
 				}
 			}
@@ -2119,6 +2181,11 @@ func genReq(r *rand.Rand, d *APIDesc, i int) ReqDesc {
 		}
 		rq.Accept = mon.QS(accept.WithEmptyElements(r, accept.GenHeader(r, fl, types).Render(accept.OWS(r))))
 		rq.Flavour = accept.FlavourNames[fl]
+	}
+	if src := reqOffers(d, &rq); hasUpperCase(src...) && !rq.Absent && rq.Flavour != "star" && ru.Intn(3) > 0 {
+		// an operation that declares types with capitals: two headers in three are of the plain form that names the
+		// offers verbatim (the form whose negotiation is judged there)
+		rq.Accept, rq.Flavour = mon.QS(genMixedAccept(ru, src)), "plain-verbatim-upper-case"
 	}
 	if op.Secured {
 		rq.Auth = []string{"none", "wrong", "malformed", "right", "right", "right"}[r.Intn(6)]
@@ -2168,12 +2235,29 @@ func genReq(r *rand.Rand, d *APIDesc, i int) ReqDesc {
 	return rq
 }
 
+// reqOffers: the offers of the request's operation (or of its direct entry): declared produces plus the API default.
+func reqOffers(d *APIDesc, rq *ReqDesc) []string {
+	src := d.Ops[rq.Op].Produces
+	if len(src) == 0 {
+		src = d.Global
+	}
+	if rq.Entry != "" {
+		src = rq.Produces
+	}
+	src = append([]string(nil), src...)
+	if d.DefaultProduces != "" {
+		src = append(src, d.DefaultProduces)
+	}
+	return src
+}
+
 func run(m *mon.M) {
 	r := m.Rand("apis")
+	ru := m.Rand("upper-case")
 	napi := m.N(400, 3000)
 	nreq := m.N(80, 100)
 	for a := 0; a < napi; a++ {
-		d := genAPI(r)
+		d := genAPI(r, ru)
 		m.Begin(map[string]interface{}{"kind": "api", "api": d})
 		b, err := build(d)
 		if err != nil {
@@ -2182,13 +2266,16 @@ func run(m *mon.M) {
 			continue
 		}
 		m.Class("config:default=" + map[bool]string{true: "none", false: "set"}[d.DefaultProduces == ""])
+		if hasUpperCase(d.declaredTypes()...) {
+			m.Class("config:upper-case-declared-types:default=" + map[bool]string{true: "none", false: "set"}[d.DefaultProduces == ""])
+		}
 		var hs []*served
 		for k := 0; k < 3; k++ {
 			hs = append(hs, b.handler())
 		}
 		var recent []ReqDesc
 		for q := 0; q < nreq; q++ {
-			c := &Case{API: d, Req: genReq(r, d, q), Warm: append([]ReqDesc(nil), recent...)}
+			c := &Case{API: d, Req: genReq(r, ru, d, q), Warm: append([]ReqDesc(nil), recent...)}
 			recent = append(recent, c.Req)
 			if len(recent) > 3 {
 				recent = recent[1:]
